@@ -198,7 +198,7 @@ impl Prop for C14 {
         if shard == 1 + t.pick(2, 3) {
             // values obtained by parsing: the full product of relgen's relation parts in three layouts
             // (canonical; blanks inside all brackets; wide blanks between the parts)
-            product(&[3, 3, 6, 3, 6, 8], &mut |pv| {
+            product(&[3, 3, 6, crate::relgen::VERS.len(), 6, 8], &mut |pv| {
                 for ws in 0..3 {
                     let mut v = vec![0usize; REL_SLOTS];
                     v[..6].copy_from_slice(pv);
